@@ -614,3 +614,70 @@ func c12Baton(c *an.Ctx, fns []*ssa.Function) {
 	}
 	c.Floor("K5", "cond.Wait() sites in package core", n, 1)
 }
+
+// K7: a job that is already running when mrp re-attaches is counted against --maxjobs.
+// Metadata.reattachJob hands every Queued or Running job to JobManager.reattach, whose remote
+// implementation must put it into MaxJobsSemaphore.running - otherwise the rebuilt semaphore is
+// empty after a restart and up to Limit more jobs are submitted on top of those still in the
+// cluster.  Decided by assuming the state read in the semaphore method to be Running: under that
+// assumption (conditional edges that contradict it pruned) the insertion must be reachable.
+func ruleK7(c *an.Ctx) {
+	p := c.P
+	reattach := c.NeedFunc(pkgCore, "(*RemoteJobManager).reattach")
+	running := p.Field(pkgCore, "MaxJobsSemaphore", "running")
+	runningState := p.Const(pkgCore, "Running")
+	if reattach == nil || running == nil || runningState == nil {
+		return
+	}
+	n := 0
+	an.Instrs(reattach, func(in ssa.Instruction) {
+		cl, ok := in.(*ssa.Call)
+		if !ok {
+			return
+		}
+		h := cl.Call.StaticCallee()
+		if h == nil || h.Blocks == nil || h.Signature.Recv() == nil || !strings.Contains(h.Signature.Recv().Type().String(), "MaxJobsSemaphore") {
+			return
+		}
+		n++
+		var facts []an.Rel
+		an.Instrs(h, func(x ssa.Instruction) {
+			gc, ok := x.(*ssa.Call)
+			if !ok || gc.Call.StaticCallee() == nil || gc.Call.StaticCallee().Name() != "getState" {
+				return
+			}
+			for _, r := range an.Referrers(gc) {
+				if ex, isEx := r.(*ssa.Extract); isEx {
+					if ex.Index == 0 {
+						facts = append(facts, an.Rel{Op: token.EQL, X: ex, Y: ssa.NewConst(runningState.Val(), runningState.Type())})
+					} else {
+						facts = append(facts, an.Rel{Op: token.ILLEGAL, X: ex, Truth: true})
+					}
+				}
+			}
+		})
+		w := an.Query{
+			Fn: h,
+			Target: func(x ssa.Instruction) bool {
+				mu, ok := x.(*ssa.MapUpdate)
+				return ok && an.LoadsField(mu.Map, running)
+			},
+			BarrierEdge: func(from, to *ssa.BasicBlock) bool {
+				cnd, t, ok := an.EdgeCond(from, to)
+				if !ok {
+					return false
+				}
+				r := an.Normalize(cnd, t)
+				for _, f := range facts {
+					if contradicts(f, r, false) {
+						return true
+					}
+				}
+				return false
+			},
+		}.Find()
+		c.Check("K7", "running-job-counted-on-reattach("+an.FnName(h)+")@(*RemoteJobManager).reattach", cl.Pos(), w != nil,
+			"reattachJob hands Running (and Queued) jobs to this hook after a restart, but with the state assumed to be Running no path through "+an.FnName(h)+" reaches the insertion into MaxJobsSemaphore.running: jobs still running in the cluster are not counted and --maxjobs more are submitted on top of them")
+	})
+	c.Floor("K7", "semaphore calls in RemoteJobManager.reattach", n, 1)
+}
